@@ -149,7 +149,9 @@ def set_owner_process(uid, gid, initgroups=False):
 
         if initgroups:
             os.initgroups(username, gid)
-        elif gid != os.getgid():
+        # initgroups() only sets the supplementary groups, the primary
+        # group still has to be changed
+        if gid != os.getgid():
             os.setgid(gid)
 
     if uid and uid != os.getuid():
